@@ -36,8 +36,59 @@ fn primitives(max: usize, interrupt_every: usize) {
 fn c14_q_primitives_one_byte_at_a_time() {
     primitives(1, 0);
 }
-// Interrupted results: every query in which read_exact's retry loop drops an io::Error value runs out of memory
-// under CBMC (tagged-pointer representation of std::io::Error); not decided, see DESIGN.md C14.
+
+/// transient Interrupted results (the read calls selected by `mask` fail once each, `max` bytes per successful call): one
+/// AseReader primitive returns what the in-memory slice reader returns and leaves the stream at the same place.
+/// std's read_exact is modelled by RetryReader::read_exact (its documented contract, never materialising the transient
+/// error value); code that calls `read` itself sees the Interrupted result.
+macro_rules! interrupted {
+    ($name:ident, $unwind:expr, $max:expr, $mask:expr, |$a:ident, $b:ident| $op:expr, $same:expr) => {
+        #[kani::proof]
+        #[kani::unwind($unwind)]
+        #[kani::stub(alloc::fmt::format, crate::vklib::empty_format)]
+        fn $name() {
+            let mut d: [u8; 8] = kani::any();
+            d[0] = 2; // for string(): 2 symbolic ASCII bytes
+            d[1] = 0;
+            kani::assume(d[2] < 0x80 && d[3] < 0x80);
+            let mut ra = AseReader::with(RetryReader { data: &d, pos: 0, max: $max, calls: 0, mask: $mask, interrupts: 0 });
+            let mut rb = AseReader::new(&d);
+            let (x, y) = {
+                let ($a, $b) = (&mut ra, &mut rb);
+                $op
+            };
+            let same: bool = match (&x, &y) {
+                (Ok(p), Ok(q)) => $same(p, q),
+                _ => false,
+            };
+            assert!(same, "an interrupted read is retried: same value as the in-memory reader");
+            let (n1, n2) = (ra.byte(), rb.byte());
+            assert!(n1.is_ok() && n1.as_ref().ok() == n2.as_ref().ok(), "same stream position afterwards");
+            kani::cover!(d[7] == 9);
+            core::mem::forget((x, y, n1, n2));
+        }
+    };
+}
+fn eq<T: PartialEq>(p: &T, q: &T) -> bool {
+    p == q
+}
+fn eq_str2(p: &String, q: &String) -> bool {
+    p.len() == 2 && q.len() == 2 && p.as_bytes()[0] == q.as_bytes()[0] && p.as_bytes()[1] == q.as_bytes()[1]
+}
+interrupted!(c14_q_interrupted_byte, 6, 1, 0b1, |a, b| (a.byte(), b.byte()), eq);
+interrupted!(c14_q_interrupted_word, 8, 1, 0b101, |a, b| (a.word(), b.word()), eq);
+interrupted!(c14_q_interrupted_short, 8, 1, 0b10, |a, b| (a.short(), b.short()), eq);
+interrupted!(c14_q_interrupted_dword, 12, 1, 0b1010101, |a, b| (a.dword(), b.dword()), eq);
+interrupted!(c14_q_interrupted_long, 12, 2, 0b11, |a, b| (a.long(), b.long()), eq);
+interrupted!(c14_q_interrupted_skip_reserved, 12, 1, 0b10101, |a, b| (a.skip_reserved(3), b.skip_reserved(3)), eq);
+interrupted!(c14_q_interrupted_string, 12, 1, 0b101010, |a, b| (a.string(), b.string()), eq_str2);
+interrupted!(c14_q_interrupted_read_exact, 12, 1, 0b1001, |a, b| { let (mut u, mut v) = ([0u8; 3], [0u8; 3]); (a.read_exact(&mut u).map(|_| u), b.read_exact(&mut v).map(|_| v)) }, eq_arr3);
+interrupted!(c14_t_interrupted_dword_whole_then_retry, 12, 4, 0b1, |a, b| (a.dword(), b.dword()), eq);
+interrupted!(c14_t_interrupted_skip_reserved_mid, 12, 2, 0b10, |a, b| (a.skip_reserved(4), b.skip_reserved(4)), eq);
+interrupted!(c14_t_interrupted_string_payload, 12, 2, 0b110, |a, b| (a.string(), b.string()), eq_str2);
+fn eq_arr3(p: &[u8; 3], q: &[u8; 3]) -> bool {
+    p[0] == q[0] && p[1] == q[1] && p[2] == q[2]
+}
 
 /// take_bytes over a choppy reader
 #[kani::proof]
@@ -113,3 +164,41 @@ fn c14_q_io_error_from_reader_is_returned() {
     kani::cover!(true);
     core::mem::forget(r);
 }
+
+/// a hard I/O error (concrete kind) at byte offset `$limit` of the input, inside the bytes one primitive asks for: the
+/// primitive returns the IoError variant carrying that kind. (The kind and the offset are concrete per harness:
+/// Result<_, io::Error> is a nullable tagged pointer, and with symbolic bits CBMC cannot resolve Ok/Err during symbolic
+/// execution, so it would follow the Ok continuation with unconstrained lengths as well.)
+macro_rules! hard_error {
+    ($name:ident, $unwind:expr, $limit:expr, $kind:expr, |$a:ident| $op:expr) => {
+        #[kani::proof]
+        #[kani::unwind($unwind)]
+        #[kani::stub(alloc::fmt::format, crate::vklib::empty_format)]
+        fn $name() {
+            let mut d: [u8; 8] = kani::any();
+            d[0] = 2; // for string(): 2 ASCII bytes
+            d[1] = 0;
+            kani::assume(d[2] < 0x80 && d[3] < 0x80);
+            let mut ra = AseReader::with(LimitReader { data: &d, pos: 0, limit: $limit, fault: Some($kind) });
+            let r = {
+                let $a = &mut ra;
+                $op
+            };
+            match &r {
+                Ok(_) => assert!(false, "the fault lies inside the bytes that were requested"),
+                Err(AsepriteParseError::IoError(e)) => assert!(e.kind() == $kind, "the reader's error kind is preserved"),
+                Err(_) => assert!(false, "an I/O failure is reported as the IoError variant"),
+            }
+            kani::cover!(d[7] == 9);
+            core::mem::forget(r);
+        }
+    };
+}
+hard_error!(c14_q_hard_error_byte, 6, 0, std::io::ErrorKind::TimedOut, |a| a.byte());
+hard_error!(c14_q_hard_error_word, 6, 1, std::io::ErrorKind::PermissionDenied, |a| a.word());
+hard_error!(c14_q_hard_error_short, 6, 0, std::io::ErrorKind::ConnectionReset, |a| a.short());
+hard_error!(c14_q_hard_error_long, 6, 3, std::io::ErrorKind::NotFound, |a| a.long());
+hard_error!(c14_q_hard_error_skip_reserved, 8, 4, std::io::ErrorKind::Other, |a| a.skip_reserved(6));
+hard_error!(c14_q_hard_error_string_length, 8, 1, std::io::ErrorKind::InvalidData, |a| a.string());
+hard_error!(c14_q_hard_error_string_payload, 8, 3, std::io::ErrorKind::InvalidInput, |a| a.string());
+hard_error!(c14_q_hard_error_read_exact, 8, 2, std::io::ErrorKind::BrokenPipe, |a| { let mut u = [0u8; 3]; a.read_exact(&mut u) });
